@@ -26,12 +26,14 @@ type Result struct {
 type Solver struct {
 	Name string
 	Cmd  []string
+	Push bool // keep the (push)/(pop) around the goal: z3 then runs its incremental core, which decides some goals the one-shot tactic does not (and the other way round)
 }
 
 var solvers = []Solver{
-	{"z3-new", []string{"z3-new", "-smt2"}},
-	{"z3", []string{"z3", "-smt2"}},
-	{"cvc5", []string{"cvc5", "--lang=smt2", "--incremental"}},
+	{"z3-new", []string{"z3-new", "-smt2"}, false},
+	{"z3-new-inc", []string{"z3-new", "-smt2"}, true},
+	{"z3", []string{"z3", "-smt2"}, true},
+	{"cvc5", []string{"cvc5", "--lang=smt2"}, false},
 }
 
 type preSection struct {
@@ -43,18 +45,57 @@ type preSection struct {
 // included only when the function under proof mentions one of the section's symbols
 // (dropping an axiom only weakens what is assumed).
 type Pre struct {
+	once      sync.Once
+	ghostDefs map[string]string
 	ghostText string
 	core     string
 	sections []preSection
 	tail     string
 }
 
+// usedGhostText: the definitions of the ghost functions a script mentions (transitively); the axiom sections their
+// bodies need must be included as well (numDec mentions dec.ofint although the function's own script does not).
+func (p *Pre) usedGhostText(script string) string {
+	p.once.Do(func() {
+		p.ghostDefs = map[string]string{}
+		for _, l := range strings.Split(p.ghostText, "\n") {
+			for _, kw := range []string{"(define-fun ", "(define-fun-rec ", "(declare-fun "} {
+				if strings.HasPrefix(l, kw) {
+					rest := l[len(kw):]
+					if i := strings.IndexAny(rest, " ("); i > 0 {
+						p.ghostDefs[rest[:i]] += l + "\n"
+					}
+				}
+			}
+		}
+	})
+	used := map[string]bool{}
+	var out strings.Builder
+	frontier := script
+	for round := 0; round < 4; round++ {
+		var next strings.Builder
+		for name, text := range p.ghostDefs {
+			if !used[name] && strings.Contains(frontier, "("+name+" ") {
+				used[name] = true
+				next.WriteString(text)
+			}
+		}
+		if next.Len() == 0 {
+			break
+		}
+		out.WriteString(next.String())
+		frontier = next.String()
+	}
+	return out.String()
+}
+
 func (p *Pre) For(script string) string {
 	var b strings.Builder
 	b.WriteString(p.core)
+	ghosts := p.usedGhostText(script)
 	for _, s := range p.sections {
 		for _, k := range s.keys {
-			if strings.Contains(script, k) || strings.Contains(p.tail, "("+k+" ") && false {
+			if strings.Contains(script, k) || strings.Contains(ghosts, k) {
 				b.WriteString(s.text)
 				break
 			}
@@ -210,12 +251,15 @@ func runSolver(ctx context.Context, s Solver, script string, perQueryMs int) ([]
 	}
 	defer os.RemoveAll(dir)
 	file := filepath.Join(dir, "q.smt2")
+	if !s.Push {
+		script = strings.ReplaceAll(strings.ReplaceAll(script, "(push 1)\n", ""), "(pop 1)\n", "")
+	}
 	if err := os.WriteFile(file, []byte(script), 0o644); err != nil {
 		return nil, "", err
 	}
 	args := append([]string{}, s.Cmd[1:]...)
 	switch s.Name {
-	case "z3", "z3-new":
+	case "z3", "z3-new", "z3-new-inc":
 		args = append(args, fmt.Sprintf("-t:%d", perQueryMs))
 	case "cvc5":
 		args = append(args, fmt.Sprintf("--tlimit-per=%d", perQueryMs))
